@@ -160,6 +160,26 @@ def pt1(proj, rep):
     else:
         rep.undecided('PT1', f'{f.qual}[shared legs]', f'loop domain `{itx}` is not recognisably the complement of {K}', m, lp)
         n -= 1
+    # (e) the contraction result is what is returned: C-linear in rho, no later re-assignment
+    n += 1
+    rname = None
+    est = _parent_stmt(ein)
+    if isinstance(est, ast.Assign) and isinstance(est.targets[0], ast.Name):
+        rname = est.targets[0].id
+    later = [st for st in body if rname and st.lineno > est.lineno and any(isinstance(x, ast.Name) and x.id == rname and isinstance(x.ctx, ast.Store) for x in ast.walk(st))]
+    anti = [x for x in ast.walk(f.node) if (isinstance(x, ast.Attribute) and x.attr in ('conj', 'conjugate', 'real', 'imag', 'H')) or
+            (isinstance(x, ast.Call) and _txt(x.func) in ('abs', 'np.abs', 'np.conj', 'np.conjugate', 'np.real', 'np.imag'))]
+    rets = [st for st in ast.walk(f.node) if isinstance(st, ast.Return)]
+    if anti:
+        rep.violation('PT1', f'{f.qual}[linearity]', f'`{ast.unparse(_parent_stmt(anti[0]))[:80]}` applies an anti-linear / real-part operation: the partial trace of a '
+                      f'non-Hermitian operator is no longer the explicit contraction', m, _parent_stmt(anti[0]))
+    elif later:
+        rep.violation('PT1', f'{f.qual}[linearity]', f'`{ast.unparse(later[0])[:80]}` re-assigns the contraction result before it is returned', m, later[0])
+    elif len(rets) == 1 and isinstance(rets[0].value, ast.Name) and rets[0].value.id == rname:
+        rep.ok('PT1', f'{f.qual}[linearity]', 'the einsum result is returned as is', m, rets[0])
+    else:
+        rep.undecided('PT1', f'{f.qual}[linearity]', 'return structure not recognised', m, f.node, text='linearity')
+        n -= 1
     rep.count('PT1.obligations', n)
     return n
 
@@ -311,5 +331,20 @@ def pt3(proj, rep):
             else:
                 rep.undecided('PT3', f'{f.qual}[{backend} reorder]', 'stack/reshape idiom not recognised', m, st)
                 n -= 1
+    # every path goes through the table: one return, at the end
+    n += 1
+    rets = [st for st in ast.walk(f.node) if isinstance(st, ast.Return)]
+    if len(rets) == 1 and f.node.body[-1] is rets[0]:
+        rep.ok('PT3', f'{f.qual}[single path]', 'one return, after the loop over the table', m, rets[0])
+    else:
+        early = [r for r in rets if r is not f.node.body[-1]]
+        uses = any(isinstance(x, ast.Name) and x.id == 'dicke_Bij' for r in early for x in ast.walk(r))
+        if early and not uses:
+            rep.violation('PT3', f'{f.qual}[single path]', f'`{ast.unparse(early[0])[:80]}` returns without consulting the reduction table `dicke_Bij`: the order of the '
+                          f'B basis is fixed by the table (get_dicke_klist lists occupations from (0,..,n) down), a shortcut that ignores it returns the '
+                          f'state in another basis order', m, early[0])
+        else:
+            rep.undecided('PT3', f'{f.qual}[single path]', 'additional return paths are not understood', m, f.node, text='single path')
+            n -= 1
     rep.count('PT3.obligations', n)
     return n
